@@ -204,6 +204,93 @@ func runBERT(localMax, peerMax uint32, body int) (line string) {
 	return fmt.Sprintf("first %d", first)
 }
 
+// runSZXPeer: a stream connection configured with exponent szx (any byte value) towards a peer whose CSM announces
+// Block-Wise-Transfer, with Max-Message-Size peerMax or - peerMax 0 - without one.  A POST of `body` bytes: an exponent
+// outside 0..7 must be refused (no request on the wire), whatever the peer announced.
+func runSZXPeer(szx int, peerMax uint32, body int) (line string) {
+	defer func() {
+		if r := recover(); r != nil {
+			line = fmt.Sprintf("panic %v", r)
+		}
+	}()
+	cc, peer, err := mem.NewTCPConn(mem.TCPOpts{Mutate: func(cfg *tcpclient.Config) {
+		cfg.BlockwiseEnable = true
+		cfg.BlockwiseSZX = blockwise.SZX(szx)
+		cfg.MaxMessageSize = 65536
+	}})
+	if err != nil {
+		return "err"
+	}
+	defer func() { _ = cc.Close(); peer.Close() }()
+	time.Sleep(10 * time.Millisecond)
+	peer.TakeFrames()
+	csm := pool.NewMessage(context.Background())
+	csm.SetCode(codes.CSM)
+	if peerMax > 0 {
+		csm.SetOptionUint32(message.TCPMaxMessageSize, peerMax)
+	}
+	csm.SetOptionBytes(message.TCPBlockWiseTransfer, []byte{})
+	b, _ := csm.MarshalWithEncoder(tcpcoder.DefaultCoder)
+	_ = peer.Write(append([]byte(nil), b...))
+	time.Sleep(10 * time.Millisecond)
+	payload := make([]byte, body)
+	type res struct{ err error }
+	done := make(chan res, 1)
+	ctx, cancel := context.WithTimeout(context.Background(), 300*time.Millisecond)
+	defer cancel()
+	go func() {
+		resp, err := cc.Post(ctx, "/up", message.AppOctets, bytes.NewReader(payload))
+		if err == nil {
+			cc.ReleaseMessage(resp)
+		}
+		done <- res{err}
+	}()
+	sent := ""
+	deadline := time.Now().Add(250 * time.Millisecond)
+	var r *res
+	for sent == "" && time.Now().Before(deadline) && r == nil {
+		for _, fr := range peer.TakeFrames() {
+			m := pool.NewMessage(context.Background())
+			if _, err := m.UnmarshalWithDecoder(tcpcoder.DefaultCoder, fr); err != nil || m.Code() != codes.POST {
+				continue
+			}
+			pb, _ := m.ReadBody()
+			bits := -1
+			if v, err := m.GetOptionUint32(message.Block1); err == nil {
+				bits = int(v & 7)
+			}
+			sent = fmt.Sprintf("sent szx=%d len=%d", bits, len(pb))
+			break
+		}
+		select {
+		case x := <-done:
+			r = &x
+		default:
+			time.Sleep(2 * time.Millisecond)
+		}
+	}
+	cancel()
+	if r == nil {
+		x := <-done
+		r = &x
+	}
+	if sent == "" {
+		for _, fr := range peer.TakeFrames() {
+			m := pool.NewMessage(context.Background())
+			if _, err := m.UnmarshalWithDecoder(tcpcoder.DefaultCoder, fr); err == nil && m.Code() == codes.POST {
+				sent = "sent late"
+			}
+		}
+	}
+	if sent != "" {
+		return sent
+	}
+	if r.err != nil {
+		return "err"
+	}
+	return "ok-nothing-sent"
+}
+
 func TestC19Glue(t *testing.T) {
 	err := lp.FileLoop(func(f []string, w *bufio.Writer) {
 		switch {
@@ -211,6 +298,11 @@ func TestC19Glue(t *testing.T) {
 			szx, _ := strconv.Atoi(f[2])
 			body, _ := strconv.Atoi(f[3])
 			fmt.Fprintln(w, runCfgSZX(f[1], szx, body))
+		case len(f) == 4 && f[0] == "szxpeer":
+			sz, _ := strconv.Atoi(f[1])
+			pm, _ := strconv.ParseUint(f[2], 10, 32)
+			body, _ := strconv.Atoi(f[3])
+			fmt.Fprintln(w, runSZXPeer(sz, uint32(pm), body))
 		case len(f) == 4 && f[0] == "bert":
 			lm, _ := strconv.ParseUint(f[1], 10, 32)
 			pm, _ := strconv.ParseUint(f[2], 10, 32)
